@@ -397,6 +397,62 @@ def xattrs(fs, ino, inode=None):
 # ---- whole-tree view (independent reading), used by the tool-level oracles
 import hashlib as _hl
 
+BIG_FILE = 64 << 20      # above this size a file's digest is taken over its non-zero 1k pieces only (offset, bytes), plus its size
+
+
+def sparse_digest_update(h, off, chunk):
+    """feed the 1k-aligned pieces of [chunk] (starting at byte offset [off], off % 1024 == 0) that are not all zero"""
+    for k in range(0, len(chunk), 1024):
+        piece = chunk[k:k + 1024]
+        if piece.strip(b"\0"):
+            h.update(struct.pack("<Q", off + k))
+            h.update(piece.ljust(1024, b"\0"))
+
+
+def sparse_digest_of_map(fs, ino, inode):
+    h = _hl.sha256()
+    m, _ = fs.file_map(ino, inode)
+    size = inode["size"]
+    for lblk in sorted(m):
+        pblk, un = m[lblk]
+        a = lblk * fs.bs
+        if un or a >= size:
+            continue
+        sparse_digest_update(h, a, fs.block(pblk)[:max(0, min(fs.bs, size - a))])
+    h.update(struct.pack("<Q", size))
+    return "S" + h.hexdigest()[:15]
+
+
+def sparse_digest_of_file(path):
+    """the same digest for a host file, walking its data extents (SEEK_DATA / SEEK_HOLE)"""
+    import os as _os
+    h = _hl.sha256()
+    size = _os.path.getsize(path)
+    fd = _os.open(path, _os.O_RDONLY)
+    try:
+        pos = 0
+        while pos < size:
+            try:
+                d = _os.lseek(fd, pos, _os.SEEK_DATA)
+            except OSError:
+                break
+            e = _os.lseek(fd, d, _os.SEEK_HOLE)
+            d -= d % 1024
+            pos = d
+            while pos < e:
+                n = min(1 << 20, e - pos)
+                chunk = _os.pread(fd, n, pos)
+                if not chunk:
+                    break
+                sparse_digest_update(h, pos, chunk)
+                pos += len(chunk)
+                if pos % 1024:
+                    pos += 1024 - pos % 1024
+    finally:
+        _os.close(fd)
+    h.update(struct.pack("<Q", size))
+    return "S" + h.hexdigest()[:15]
+
 
 def tree(fs, with_times=False, max_nodes=200000):
     """path -> tuple(kind, mode, uid, gid, size_or_rdev, links, digest/target[, mtime]); raises FormatError"""
@@ -426,6 +482,8 @@ def tree(fs, with_times=False, max_nodes=200000):
                 names.append(name)
                 stack.append((path.rstrip("/") + "/" + name.decode("latin1"), child))
             ent = ("dir", i["mode"] & 0o7777, i["uid"], i["gid"], 0, i["links"], _hl.sha256(b"\0".join(sorted(names))).hexdigest()[:16])
+        elif fmt == 0x8000 and i["size"] > BIG_FILE and not i["flags"] & INLINE_DATA_FL:
+            ent = ("file", i["mode"] & 0o7777, i["uid"], i["gid"], i["size"], i["links"], sparse_digest_of_map(fs, ino, i))
         elif fmt == 0x8000:
             data = fs.file_data(ino, i)
             if data is None:
